@@ -126,7 +126,14 @@ func TestC17Filter(t *testing.T) {
 		default:
 			v = u.GenAnyJSON(t, cfg)
 		}
-		data := jsonx.MarshalStyle(v, &jsonx.Style{Pad: padGen(t)})
+		st := &jsonx.Style{Pad: padGen(t)}
+		switch rapid.IntRange(0, 3).Draw(t, "jsonStyle") {
+		case 0:
+			st.ASCII, st.Spaced = true, true // Python's json.dumps
+		case 1:
+			st.ASCII, st.EscapeSlash = true, true
+		}
+		data := jsonx.MarshalStyle(v, st)
 
 		classes := []string{"mode:" + mode}
 		if mutKind != "" {
